@@ -155,6 +155,15 @@ func stdoutWriterMisuse(p *core.Prog, v ssa.Value, printFn *ssa.Function, seen m
 				}
 			case name == "(*bufio.Writer).Flush":
 			case callee == printFn:
+			case callee != nil && callee.Blocks != nil && (strings.HasPrefix(core.PkgPathOf(callee), pkgImporter+"/") || core.PkgPathOf(callee) == pkgImporter):
+				// a helper of the importers that takes the writer: what it does with its
+				// parameter is judged by the same rule
+				args := x.Common().Args
+				for i, a := range args {
+					if a == v && i < len(callee.Params) {
+						bad = append(bad, stdoutWriterMisuse(p, callee.Params[i], printFn, seen)...)
+					}
+				}
 			default:
 				if name == "" {
 					name = x.Common().Value.String()
